@@ -110,10 +110,11 @@ pub enum TOp {
     Insert { k: MV, v: MV },
     InsertReserve { k: MV, v: MV },
     Get { k: MV },
-    GetMut { k: MV, v: Option<MV> },
-    EntryOrInsert { k: MV, v: MV },
-    EntryAndModify { k: MV, v: MV, then_or_insert: Option<MV> },
-    EntryOccupied { k: MV, action: u8, v: MV },
+    /// get_mut, then the guard's insert() once per value (several replacements through ONE guard)
+    GetMut { k: MV, vs: Vec<MV> },
+    EntryOrInsert { k: MV, v: MV, then: Vec<MV> },
+    EntryAndModify { k: MV, v: MV, more: Vec<MV>, then_or_insert: Option<MV> },
+    EntryOccupied { k: MV, action: u8, v: MV, more: Vec<MV> },
     Remove { k: MV },
     PopFirst,
     PopLast,
@@ -156,6 +157,16 @@ pub fn decode_top(r: &mut Rec, kty: Ty, vty: Ty, cfg: &DbCfg, universe: usize, t
         let d = r.u8();
         genr::val_of(vty, tag, cls, d, page, maxlen)
     };
+    // 0-2 further values for the same guard, each larger than a page more often than not, so that
+    // consecutive replacements through one guard each have to rebuild the leaf
+    let escalate = |sel: u8| -> Vec<MV> {
+        let big = [236u8, 246, 253, 200, 120, 246];
+        match sel % 8 {
+            0..=3 => vec![],
+            4 | 5 => vec![genr::val_of(vty, tag ^ 0xa1, big[(sel / 8 % 6) as usize], sel % 17, page, maxlen)],
+            _ => vec![genr::val_of(vty, tag ^ 0xa1, big[(sel / 8 % 6) as usize], sel % 17, page, maxlen), genr::val_of(vty, tag ^ 0xa2, big[((sel / 8 + 1) % 6) as usize], sel % 13, page, maxlen)],
+        }
+    };
     match kind {
         0 => {
             let k = genr::rec_key(r, kty, universe, page);
@@ -176,25 +187,33 @@ pub fn decode_top(r: &mut Rec, kty: Ty, vty: Ty, cfg: &DbCfg, universe: usize, t
             let k = genr::rec_key(r, kty, universe, page);
             let has = r.bool();
             let v = mkval(r);
-            TOp::GetMut { k, v: has.then_some(v) }
+            let mut vs = vec![];
+            if has {
+                vs.push(v);
+                vs.extend(escalate(r.u8()));
+            }
+            TOp::GetMut { k, vs }
         }
         4 => {
             let k = genr::rec_key(r, kty, universe, page);
             let v = mkval(r);
-            TOp::EntryOrInsert { k, v }
+            let then = escalate(r.u8());
+            TOp::EntryOrInsert { k, v, then }
         }
         5 => {
             let k = genr::rec_key(r, kty, universe, page);
             let v = mkval(r);
             let t = r.bool();
             let v2 = genr::val_of(vty, tag ^ 0x5555, r.u8(), 0, page, maxlen);
-            TOp::EntryAndModify { k, v, then_or_insert: t.then_some(v2) }
+            let more = escalate(r.u8());
+            TOp::EntryAndModify { k, v, more, then_or_insert: t.then_some(v2) }
         }
         6 => {
             let k = genr::rec_key(r, kty, universe, page);
             let action = r.u8() % 4;
             let v = mkval(r);
-            TOp::EntryOccupied { k, action, v }
+            let more = escalate(r.u8());
+            TOp::EntryOccupied { k, action, v, more }
         }
         7 => TOp::Remove { k: genr::rec_key(r, kty, universe, page) },
         8 => TOp::PopFirst,
@@ -431,17 +450,17 @@ pub fn apply_top<KF: KeyFam, VF: ValFam>(
                 }
             }
         }
-        TOp::GetMut { k, v } => {
+        TOp::GetMut { k, vs } => {
             let g = io!(t.get_mut(KF::to(k)));
             match (g, m.get(k).cloned()) {
                 (None, None) => {}
                 (Some(mut g), Some(exp)) => {
                     let got = VF::from(g.value());
                     sensure!(got == exp, "get_mut", "get_mut({k:?}) holds {got:?}, model says {exp:?}");
-                    if let Some(v) = v {
+                    for (n, v) in vs.iter().enumerate() {
                         io!(g.insert(VF::to(v)));
                         let got2 = VF::from(g.value());
-                        sensure!(&got2 == v, "get_mut-insert", "after AccessGuardMut::insert the guard holds {got2:?}, expected {v:?}");
+                        sensure!(&got2 == v, "get_mut-insert", "after insert #{n} through one AccessGuardMut the guard holds {got2:?}, expected {v:?}");
                         m.insert(k.clone(), v.clone());
                     }
                 }
@@ -450,19 +469,31 @@ pub fn apply_top<KF: KeyFam, VF: ValFam>(
                 }
             }
         }
-        TOp::EntryOrInsert { k, v } => {
+        TOp::EntryOrInsert { k, v, then } => {
             let e = io!(t.entry(KF::to(k)));
-            let g = io!(e.or_insert(VF::to(v)));
+            let mut g = io!(e.or_insert(VF::to(v)));
             let got = VF::from(g.value());
             let exp = m.entry(k.clone()).or_insert_with(|| v.clone()).clone();
             sensure!(got == exp, "entry-or_insert", "entry({k:?}).or_insert holds {got:?}, model says {exp:?}");
+            for (n, v2) in then.iter().enumerate() {
+                io!(g.insert(VF::to(v2)));
+                let got2 = VF::from(g.value());
+                sensure!(&got2 == v2, "entry-or_insert-insert", "after insert #{n} through the guard of or_insert it holds {got2:?}, expected {v2:?}");
+                m.insert(k.clone(), v2.clone());
+            }
         }
-        TOp::EntryAndModify { k, v, then_or_insert } => {
+        TOp::EntryAndModify { k, v, more, then_or_insert } => {
             let e = io!(t.entry(KF::to(k)));
             let was = m.contains_key(k);
-            let e = io!(e.and_modify(|g| g.insert(VF::to(v))));
+            let e = io!(e.and_modify(|g| {
+                g.insert(VF::to(v))?;
+                for v2 in more {
+                    g.insert(VF::to(v2))?;
+                }
+                Ok(())
+            }));
             if was {
-                m.insert(k.clone(), v.clone());
+                m.insert(k.clone(), more.last().unwrap_or(v).clone());
             }
             sensure!(matches!(e, redb::Entry::Occupied(_)) == was, "entry-kind", "entry({k:?}) occupied={} but model presence={was}", !was);
             if let Some(v2) = then_or_insert {
@@ -472,7 +503,7 @@ pub fn apply_top<KF: KeyFam, VF: ValFam>(
                 sensure!(got == exp, "entry-and_modify", "entry({k:?}).and_modify.or_insert holds {got:?}, model says {exp:?}");
             }
         }
-        TOp::EntryOccupied { k, action, v } => {
+        TOp::EntryOccupied { k, action, v, more } => {
             let e = io!(t.entry(KF::to(k)));
             match (e, m.get(k).cloned()) {
                 (redb::Entry::Occupied(mut o), Some(exp)) => {
@@ -500,6 +531,12 @@ pub fn apply_top<KF: KeyFam, VF: ValFam>(
                             let mut g = io!(o.get_mut());
                             io!(g.insert(VF::to(v)));
                             m.insert(k.clone(), v.clone());
+                            for (n, v2) in more.iter().enumerate() {
+                                io!(g.insert(VF::to(v2)));
+                                let got2 = VF::from(g.value());
+                                sensure!(&got2 == v2, "entry-get_mut-insert", "after insert #{n} through OccupiedEntry::get_mut's guard it holds {got2:?}, expected {v2:?}");
+                                m.insert(k.clone(), v2.clone());
+                            }
                         }
                     }
                 }
